@@ -195,6 +195,13 @@ func odtListStyles() []*Node {
 	return out
 }
 
+func odtListStylesFor(d *ldoc) []*Node {
+	if d.NumSeed != 0 {
+		return odtListStylesVariant(hx.NewRng(d.NumSeed))
+	}
+	return odtListStyles()
+}
+
 func addText(kids []*Node, s string) []*Node {
 	if n := len(kids); n > 0 && kids[n-1].Tag == "" {
 		kids[n-1] = T(kids[n-1].Text + s) // adjacent character data is one text node
@@ -214,6 +221,8 @@ func odtItems(kids []*Node, items []inl) []*Node {
 			kids = append(kids, E("text:line-break"))
 		case "s":
 			kids = append(kids, E("text:s").A("text:c", it.Tok))
+		case "lit":
+			kids = addText(kids, it.Tok)
 		}
 	}
 	return kids
@@ -294,20 +303,27 @@ func odtList(items []*lpara, level int, auto, named map[string]bool) *Node {
 	return list
 }
 
+// odtGroup wraps nodes in a grouping element of the table (ODF 1.2 part 1, 9.1.2: rows may
+// sit in table:table-header-rows, table:table-rows, table:table-row-group, columns in
+// table:table-columns, table:table-header-columns, table:table-column-group; the grouping
+// says nothing about the content).
+func odtGroup(tag string, ns []*Node) *Node { return E(tag, ns...) }
+
 func odtTable(t *ltable, idx *int, auto, named map[string]bool) *Node {
 	*idx++
 	tbl := E("table:table").A("table:name", "Tbl"+strconv.Itoa(*idx))
+	var cols, rows []*Node
 	if t.RawRepeat != "" {
 		// the first column element stands for RepeatN columns, the others follow one by one
-		tbl.Add(E("table:table-column").A("table:number-columns-repeated", rawAttr(t.RawRepeat)))
+		cols = append(cols, E("table:table-column").A("table:number-columns-repeated", rawAttr(t.RawRepeat)))
 		for c := t.RepeatN; c < t.C; c++ {
-			tbl.Add(E("table:table-column"))
+			cols = append(cols, E("table:table-column"))
 		}
 	} else if t.NoGrid {
-		tbl.Add(E("table:table-column").A("table:number-columns-repeated", strconv.Itoa(t.C)))
+		cols = append(cols, E("table:table-column").A("table:number-columns-repeated", strconv.Itoa(t.C)))
 	} else {
 		for c := 0; c < t.C; c++ {
-			tbl.Add(E("table:table-column"))
+			cols = append(cols, E("table:table-column"))
 		}
 	}
 	for a := 0; a < t.R; a++ {
@@ -337,9 +353,49 @@ func odtTable(t *ltable, idx *int, auto, named map[string]bool) *Node {
 			}
 			tr.Add(tc)
 		}
-		tbl.Add(tr)
+		rows = append(rows, tr)
+	}
+	switch t.Groups {
+	case 1: // the first row is a repeated heading row
+		tbl.Add(cols...)
+		tbl.Add(odtGroup("table:table-header-rows", rows[:1]))
+		tbl.Add(rows[1:]...)
+	case 2: // heading row and body rows, each in their group
+		tbl.Add(cols...)
+		tbl.Add(odtGroup("table:table-header-rows", rows[:1]))
+		if len(rows) > 1 {
+			tbl.Add(odtGroup("table:table-rows", rows[1:]))
+		}
+	case 3: // columns and rows grouped
+		tbl.Add(odtGroup("table:table-columns", cols), odtGroup("table:table-rows", rows))
+	case 4: // a row group inside a row group, the last row outside
+		k := len(rows) / 2
+		tbl.Add(cols...)
+		tbl.Add(odtGroup("table:table-row-group", append([]*Node{odtGroup("table:table-row-group", rows[:k])}, rows[k:len(rows)-1]...)))
+		tbl.Add(rows[len(rows)-1])
+	case 5: // heading column and a column group
+		tbl.Add(odtGroup("table:table-header-columns", cols[:1]))
+		if len(cols) > 1 {
+			tbl.Add(odtGroup("table:table-column-group", cols[1:]))
+		}
+		tbl.Add(rows...)
+	default:
+		tbl.Add(cols...)
+		tbl.Add(rows...)
 	}
 	return tbl
+}
+
+// drawGroups gives the table (and its nested tables) a grouping of rows / columns.
+func drawGroups(r *hx.Rng, t *ltable) {
+	if r.Chance(2, 5) {
+		t.Groups = r.Range(1, 5)
+	}
+	for _, c := range t.Cells {
+		if c.Nested != nil {
+			drawGroups(r, c.Nested)
+		}
+	}
 }
 
 func sortedKeys(m map[string]bool) []string {
@@ -361,6 +417,9 @@ func writeOdt(r *hx.Rng, d *ldoc) odtPkg {
 		var n *Node
 		switch {
 		case bl.T != nil:
+			if !d.NoDraw {
+				drawGroups(r, bl.T)
+			}
 			n = odtTable(bl.T, &tblIdx, auto, named)
 			bodyTables = append(bodyTables, n)
 		case bl.P.Kind == "li":
@@ -370,7 +429,10 @@ func writeOdt(r *hx.Rng, d *ldoc) odtPkg {
 				items = append(items, d.Blocks[j].P)
 				j++
 			}
-			n = odtList(items, 0, auto, named).A("text:style-name", "L"+strconv.Itoa(bl.P.NumID))
+			n = odtList(items, 0, auto, named)
+			if bl.P.NumID != 0 { // render stream: list 0 is written without a style name
+				n.A("text:style-name", "L"+strconv.Itoa(bl.P.NumID))
+			}
 			i = j - 1
 		default:
 			n = odtPara(bl.P, auto, named)
@@ -423,10 +485,22 @@ func writeOdt(r *hx.Rng, d *ldoc) odtPkg {
 			mp := E("style:master-page").A("style:name", "Standard").A("style:page-layout-name", "Mpm1")
 			if len(d.Header) > 0 {
 				h := E("style:header")
-				for _, t := range d.Header {
+				lines := d.Header
+				var left []string
+				if d.Render && len(lines) > 1 {
+					lines, left = lines[:1], lines[1:] // render stream: further lines in the header of left pages
+				}
+				for _, t := range lines {
 					h.Add(E("text:p", T(t)).A("text:style-name", "Header"))
 				}
 				mp.Add(h)
+				if len(left) > 0 {
+					hl := E("style:header-left")
+					for _, t := range left {
+						hl.Add(E("text:p", T(t[:3]), E("text:span", T(t[3:])).A("text:style-name", "T1")).A("text:style-name", "Header"))
+					}
+					mp.Add(hl)
+				}
 			}
 			if len(d.Footer) > 0 {
 				f := E("style:footer")
